@@ -52,6 +52,7 @@ def check(ctx):
   r5(ctx, cls)
   r6(ctx, cls)
   r7(ctx, cls)
+  r8(ctx, cls)
 
 
 def r1(ctx, osc, wk):
@@ -338,6 +339,40 @@ def r5(ctx, cls):
   ctx.ob('C19.R5', sr, 'old children baseline queued as leaves through the worker', ok,
          'queued item is %s' % ([U(p.args[0]) for p in puts]),
          why + '; the leaves must be the listed-children baseline (members still being read are announced later and would never leave)')
+
+
+def r8(ctx, cls):
+  """Every queued batch is applied on its own, and the children baseline belongs to the watch callbacks."""
+  prog = ctx.prog
+  wk = prog.func(Z, 'ServerSet._notification_worker')
+  why = ('batches are diffs of node NAMES against the baseline at the time they were queued; a member deleted and re-created under the same name is a leave in one '
+         'batch and a join in the next -- folding queued batches into a "net change" cancels the leave, the consumer sees the member join twice')
+  wl = [n for n in wk.node.body if isinstance(n, ast.While)]
+  body = wl[0].body if wl else wk.node.body
+  ok = True
+  n_it = 0
+  for ev, ex in enum_paths(ctx, wk, body=body):
+    gets = [e for e in ev if e.kind == 'call' and call_attr(e.node) in ('get', 'get_nowait') and '_notification_queue' in U(e.node.func.value)]
+    n_it += 1
+    if len(gets) != 1 or call_attr(gets[0].node) != 'get':
+      ok = False
+  drains = [c for c in ast.walk(wk.node) if isinstance(c, ast.Call) and call_attr(c) in ('get_nowait', 'empty', 'qsize', 'peek') and '_notification_queue' in U(c.func.value)]
+  ctx.ob('C19.R2', wk, 'the worker takes exactly one queued batch per iteration and applies it as queued', ok and not drains and n_it >= 1,
+         'the worker looks further into the queue (%s) / takes other than one batch per iteration' % [U(d) for d in drains], why)
+  # who may write the children baseline
+  writers = set()
+  for m_ in cls.methods.values():
+    for n_ in ast.walk(m_.node):
+      tg = n_.targets if isinstance(n_, ast.Assign) else [n_.target] if isinstance(n_, ast.AugAssign) else []
+      for t_ in tg:
+        for x in (t_.elts if isinstance(t_, ast.Tuple) else [t_]):
+          if U(x) == 'self._nodes':
+            writers.add(m_.name)
+      if isinstance(n_, ast.Call) and isinstance(n_.func, ast.Attribute) and U(n_.func.value) == 'self._nodes' and n_.func.attr in ('add', 'discard', 'remove', 'clear', 'update', 'pop', 'difference_update', 'intersection_update'):
+        writers.add(m_.name)
+  ctx.ob('C19.R1', cls, 'the children baseline (_nodes) is written only by the children-watch callback and the parent-deleted path', writers <= {'__init__', '_on_set_changed', '_send_all_removed'},
+         '_nodes is changed in %s: a name taken out of the baseline elsewhere (e.g. by a snapshot read that finds the node gone) is no longer reported as a leave when the watch delivers the deletion' % sorted(writers),
+         'left = baseline - new: the baseline must hold exactly what the last notification listed')
 
 
 def r6(ctx, cls):
